@@ -2023,6 +2023,15 @@ func chanFieldKey(ch ssa.Value) string {
 		case *ssa.Field:
 			st := x.X.Type()
 			return typeName(st) + "." + st.Underlying().(*types.Struct).Field(x.Field).Name()
+		case *ssa.Call:
+			// the channel a call returned, e.g. ctx.Done(): "call:context.(Context).Done"
+			c := x.Common()
+			if c.IsInvoke() {
+				return "call:" + ifaceMethodKey(c.Value.Type(), c.Method.Name())
+			}
+			if fn := c.StaticCallee(); fn != nil {
+				return "call:" + FullName(fn)
+			}
 		}
 		return ""
 	}
@@ -2041,7 +2050,7 @@ func (e *Engine) chanEventsFor(kind string, ch ssa.Value) []*EventDecl {
 	var out []*EventDecl
 	for _, n := range names {
 		ev := e.DB.Events[n]
-		if ev.Chan == kind && (ev.Callee == key || strings.HasSuffix(key, "."+ev.Callee) || strings.HasSuffix(key, "/"+ev.Callee)) {
+		if ev.Chan == kind && (ev.Callee == key || strings.HasSuffix(key, "."+ev.Callee) || strings.HasSuffix(key, "/"+ev.Callee) || (strings.HasPrefix(ev.Callee, "call:") && strings.HasPrefix(key, "call:") && (strings.HasSuffix(key, "/"+ev.Callee[5:]) || key[5:] == ev.Callee[5:]))) {
 			out = append(out, ev)
 		}
 	}
